@@ -11,7 +11,7 @@ import csscommon
 
 def run(tier, seed, replay):
     return csscommon.run_css(
-        "C08", tier, seed, replay, ["sel", "tok", "val", "calc"], ["tokens", "gaps", "urange"],
+        "C08", tier, seed, replay, ["sel", "tok", "val", "calc", "host"], ["tokens", "gaps", "urange"],
         "cases = MCCss families sel (compound pairs x combinators x nesting x wrappers), tok (token kinds, spelling-sensitive "
         "values, at-rules) and val (numeric tokens x value shapes) x option sets, each concretised with seeded whitespace, "
         "comments and line breaks; non-trivial = distinct (source, options)",
